@@ -1,3 +1,4 @@
 #!/bin/bash
-# usage: tools/vq.sh <seed dir> <ID> <name>   - queue one seed verification behind the others (serialised by a lock), log to build/vseed_all.txt
-nohup flock /tmp/vseed.lock /verif/tools/verify_seed.sh "$1" "$2" "$3" >> /verif/build/vseed_all.txt 2>&1 &
+# usage: tools/vq.sh <seed dir> <ID> <name>   - queue one seed verification (two lanes, each serialised by a lock), log to build/vseed_all.txt
+L=/tmp/vseed.lock; [ $(( $(echo "$3" | cksum | cut -d' ' -f1) % 2 )) -eq 1 ] && L=/tmp/vseed2.lock
+nohup flock $L /verif/tools/verify_seed.sh "$1" "$2" "$3" >> /verif/build/vseed_all.txt 2>&1 &
